@@ -30,7 +30,7 @@ Print Assumptions C20_protected_served.
 
 (* a user absent from the table is never authenticated, whatever password is derived *)
 Theorem C20_unknown_user_refused : forall b64 utf8 md5 keqv enc hdr method realm users u,
-  lookup u users = None -> check_auth b64 utf8 md5 keqv enc hdr method realm users <> Authd u.
+  users u = None -> check_auth b64 utf8 md5 keqv enc hdr method realm users <> Authd u.
 Proof. exact unknown_user_refused. Qed.
 Print Assumptions C20_unknown_user_refused.
 
@@ -59,6 +59,75 @@ Theorem C20_unknown_scheme : forall b64 utf8 md5 keqv enc cred method realm user
   check_auth b64 utf8 md5 keqv enc (Some cred) method realm users = Crash.
 Proof. exact unknown_scheme. Qed.
 Print Assumptions C20_unknown_scheme.
+
+(* the supported Digest variants, each with its request-digest formula spelled out
+   (parse = PDigest ps: the header is `digest <params>` and the parameter set validates) *)
+
+(* no qop (RFC 2069): response = H( H(u:realm:pw) : nonce : H(method:uri) ) *)
+Theorem C20_digest_legacy :
+  forall b64 utf8 md5 keqv enc cred ps method realm users u pw prealm nonce uri resp,
+  parse_authorization b64 utf8 keqv cred = PDigest ps -> alg_md5 ps -> lookup s_qop ps = None ->
+  lookup s_username ps = Some u -> lookup s_realm ps = Some prealm ->
+  lookup s_nonce ps = Some nonce -> lookup s_uri ps = Some uri ->
+  lookup s_response ps = Some resp -> users u = Some pw ->
+  (check_auth b64 utf8 md5 keqv enc (Some cred) method realm users = Authd u <->
+     prealm = realm /\ exists h1 h2,
+       md5 (colon_join [u; prealm; pw]) = Some h1 /\ md5 (colon_join [method; uri]) = Some h2 /\
+       md5 (colon_join [h1; colon_join [nonce; h2]]) = Some resp).
+Proof. exact digest_legacy_iff. Qed.
+Print Assumptions C20_digest_legacy.
+
+(* qop=auth, algorithm MD5 or absent:
+   response = H( H(u:realm:pw) : nonce:nc:cnonce:auth : H(method:uri) ) *)
+Theorem C20_digest_qop_auth :
+  forall b64 utf8 md5 keqv enc cred ps method realm users u pw prealm nonce uri nc cn resp,
+  parse_authorization b64 utf8 keqv cred = PDigest ps -> alg_md5 ps -> lookup s_qop ps = Some s_auth ->
+  lookup s_username ps = Some u -> lookup s_realm ps = Some prealm ->
+  lookup s_nonce ps = Some nonce -> lookup s_uri ps = Some uri ->
+  lookup s_nc ps = Some nc -> lookup s_cnonce ps = Some cn ->
+  lookup s_response ps = Some resp -> users u = Some pw ->
+  (check_auth b64 utf8 md5 keqv enc (Some cred) method realm users = Authd u <->
+     prealm = realm /\ exists h1 h2,
+       md5 (colon_join [u; prealm; pw]) = Some h1 /\ md5 (colon_join [method; uri]) = Some h2 /\
+       md5 (colon_join [h1; colon_join [nonce; nc; cn; s_auth; h2]]) = Some resp).
+Proof. exact digest_qop_auth_iff. Qed.
+Print Assumptions C20_digest_qop_auth.
+
+(* algorithm=MD5-sess, qop=auth:  A1 = H(u:realm:pw):nonce:cnonce,
+   response = H( H(A1) : nonce:nc:cnonce:auth : H(method:uri) ) *)
+Theorem C20_digest_md5_sess :
+  forall b64 utf8 md5 keqv enc cred ps method realm users u pw prealm nonce uri nc cn resp,
+  parse_authorization b64 utf8 keqv cred = PDigest ps ->
+  lookup s_algorithm ps = Some s_MD5_sess -> lookup s_qop ps = Some s_auth ->
+  lookup s_username ps = Some u -> lookup s_realm ps = Some prealm ->
+  lookup s_nonce ps = Some nonce -> lookup s_uri ps = Some uri ->
+  lookup s_nc ps = Some nc -> lookup s_cnonce ps = Some cn ->
+  lookup s_response ps = Some resp -> users u = Some pw ->
+  (check_auth b64 utf8 md5 keqv enc (Some cred) method realm users = Authd u <->
+     prealm = realm /\ exists h h1 h2,
+       md5 (colon_join [u; prealm; pw]) = Some h /\ md5 (colon_join [h; nonce; cn]) = Some h1 /\
+       md5 (colon_join [method; uri]) = Some h2 /\
+       md5 (colon_join [h1; colon_join [nonce; nc; cn; s_auth; h2]]) = Some resp).
+Proof. exact digest_md5_sess_iff. Qed.
+Print Assumptions C20_digest_md5_sess.
+
+(* what _httpauth cannot compute (qop other than auth, e.g. auth-int; algorithm other than
+   MD5 / MD5-sess, e.g. SHA1) has no response: an exception, never "authenticated" *)
+Theorem C20_digest_unsupported : forall md5 ps pw method,
+  (exists q, lookup s_qop ps = Some q /\ q <> s_auth) \/
+  (exists a, lookup s_algorithm ps = Some a /\ a <> s_MD5 /\ a <> s_MD5_sess) ->
+  digest_response md5 ps pw method = None.
+Proof. exact digest_unsupported. Qed.
+Print Assumptions C20_digest_unsupported.
+
+(* Basic against a dict or a callable (any function user -> entry) of possibly pre-encrypted
+   passwords: the presented password goes through the configured encrypt *)
+Theorem C20_basic_encrypted : forall b64 utf8 md5 keqv enc cred method realm users u p,
+  parse_authorization b64 utf8 keqv cred = PBasic u p ->
+  (check_auth b64 utf8 md5 keqv enc (Some cred) method realm users = Authd u <->
+     exists e, users u = Some e /\ enc p u = Some e).
+Proof. exact basic_encrypted_iff. Qed.
+Print Assumptions C20_basic_encrypted.
 
 (* ---------------------------------------------------------------- sessions *)
 
@@ -96,6 +165,42 @@ Theorem C20_session_data_needs_cookie : forall sha h1 r a u h2 d,
 Proof. exact data_needs_cookie. Qed.
 Print Assumptions C20_session_data_needs_cookie.
 
+(* The client as the (address, user agent) pair.  The hypothesis that makes "fingerprint" mean
+   "pair" is explicit: the hash is injective (and an address contains no '|'). *)
+
+(* no fingerprint collision (holds for who() = sha1(ip|agent); refuted below for sha1(ip agent)) *)
+Theorem C20_session_fingerprint_collision : forall sha, injective sha -> forall r1 r2,
+  no_sep (ip r1) -> no_sep (ip r2) -> who sha r1 = who sha r2 ->
+  ip r1 = ip r2 /\ agent r1 = agent r2.
+Proof. exact fingerprint_pair. Qed.
+Print Assumptions C20_session_fingerprint_collision.
+
+(* the formula of the unrepaired code: different pairs, one fingerprint, whatever the hash *)
+Theorem C20_session_fingerprint_concat_refuted :
+  exists ip1 a1 ip2 a2 : str, (ip1, a1) <> (ip2, a2) /\
+    forall sha : str -> str, sha (ip1 ++ a1) = sha (ip2 ++ a2).
+Proof. exact concat_fingerprint_collides. Qed.
+Print Assumptions C20_session_fingerprint_concat_refuted.
+
+Theorem C20_session_pair_client : forall sha, injective sha -> forall u1 r1 u2 r2,
+  no_slash u1 -> no_slash u2 -> no_sep (ip r1) -> no_sep (ip r2) ->
+  serve sha u1 r1 = serve sha u2 r2 -> ip r1 = ip r2 /\ agent r1 = agent r2.
+Proof. exact same_sid_same_client. Qed.
+Print Assumptions C20_session_pair_client.
+
+(* data seen by a request was written by an earlier request from the same address with the
+   same user agent, presenting / served the same id *)
+Theorem C20_session_binding_client : forall sha, injective sha -> forall h1 r a u h2,
+  Forall (fun x : req * action * str => no_slash (snd x) /\ no_sep (ip (fst (fst x))))
+         (h1 ++ (r, a, u) :: h2) ->
+  exists d,
+    nth_error (run sha [] (h1 ++ (r, a, u) :: h2)) (length h1) = Some (serve sha u r, d) /\
+    forall v, d = Some v ->
+      exists r' u', In (r', Write v, u') h1 /\ serve sha u' r' = serve sha u r /\
+                    ip r' = ip r /\ agent r' = agent r.
+Proof. exact session_binding_client. Qed.
+Print Assumptions C20_session_binding_client.
+
 (* ---------------------------------------------------------------- trusted gateways *)
 
 (* With a gateway list configured, a request from an address outside it is routed by its
@@ -126,7 +231,7 @@ Print Assumptions C20_gateway_influence.
 (* "Basic x" decoding to a:p against {a: p} with encrypt=str *)
 Example C20_ex_basic :
   check_auth (fun _ => Some [97; 58; 112]) (fun b => Some b) (fun s => Some s) (fun _ => None)
-    (fun p _ => Some p) (Some [66; 97; 115; 105; 99; 32; 120]) [71; 69; 84] [82] [([97], [112])]
+    (fun p _ => Some p) (Some [66; 97; 115; 105; 99; 32; 120]) [71; 69; 84] [82] (table_of [([97], [112])])
   = Authd [97].
 Proof. vm_compute. reflexivity. Qed.
 
@@ -135,7 +240,7 @@ Example C20_ex_digest :
   check_auth (fun _ => None) (fun b => Some b) (fun s => Some s)
     (fun _ => Some [(s_username, [97]); (s_realm, [82]); (s_nonce, [110]); (s_uri, [47]);
                     (s_response, [97; 58; 82; 58; 112; 58; 110; 58; 71; 69; 84; 58; 47])])
-    default_enc (Some (s_digest ++ [32; 120])) [71; 69; 84] [82] [([97], [112])]
+    default_enc (Some (s_digest ++ [32; 120])) [71; 69; 84] [82] (table_of [([97], [112])])
   = Authd [97].
 Proof. vm_compute. reflexivity. Qed.
 
@@ -144,14 +249,14 @@ Example C20_ex_unknown_user :
   check_auth (fun _ => None) (fun b => Some b) (fun s => Some s)
     (fun _ => Some [(s_username, [98]); (s_realm, [82]); (s_nonce, [110]); (s_uri, [47]);
                     (s_response, [98; 58; 82; 58; 78; 111; 110; 101; 58; 110; 58; 71; 69; 84; 58; 47])])
-    default_enc (Some (s_digest ++ [32; 120])) [71; 69; 84] [82] [([97], [112])]
+    default_enc (Some (s_digest ++ [32; 120])) [71; 69; 84] [82] (table_of [([97], [112])])
   = Refused true.
 Proof. vm_compute. reflexivity. Qed.
 
 (* Digest username="a" only: refused *)
 Example C20_ex_malformed :
   check_auth (fun _ => None) (fun b => Some b) (fun s => Some s) (fun _ => Some [(s_username, [97])])
-    default_enc (Some (s_digest ++ [32; 120])) [71; 69; 84] [82] [([97], [112])]
+    default_enc (Some (s_digest ++ [32; 120])) [71; 69; 84] [82] (table_of [([97], [112])])
   = Refused true.
 Proof. vm_compute. reflexivity. Qed.
 
@@ -160,9 +265,9 @@ Proof. vm_compute. reflexivity. Qed.
 Example C20_ex_session :
   run (fun s => s) []
     [ ({| cookie := None; ip := [1]; agent := [2] |}, Write 7, [100]);
-      ({| cookie := Some [100; 47; 1; 2]; ip := [3]; agent := [2] |}, Read, [101]);
-      ({| cookie := Some [100; 47; 1; 2]; ip := [1]; agent := [2] |}, Read, [102]) ]
-  = [ ([100; 47; 1; 2], None); ([101; 47; 3; 2], None); ([100; 47; 1; 2], Some 7) ].
+      ({| cookie := Some [100; 47; 1; 124; 2]; ip := [3]; agent := [2] |}, Read, [101]);
+      ({| cookie := Some [100; 47; 1; 124; 2]; ip := [1]; agent := [2] |}, Read, [102]) ]
+  = [ ([100; 47; 1; 124; 2], None); ([101; 47; 3; 124; 2], None); ([100; 47; 1; 124; 2], Some 7) ].
 Proof. vm_compute. reflexivity. Qed.
 
 (* gateway 9 configured; X-Forwarded-Host "B" from address 8 is ignored, from 9 honoured *)
@@ -172,4 +277,28 @@ Example C20_ex_gateway :
    on_request (fun a b => a ++ b) [([97], [120]); ([98], [121])] (Some [[57]])
      {| remote_ip := [57]; host := [97]; xfh := [66]; path := [47; 112] |})
   = ([47; 120; 47; 112], [47; 121; 47; 112]).
+Proof. vm_compute. reflexivity. Qed.
+
+(* the identity is injective: the hypothesis of the client-level theorems is satisfiable *)
+Example C20_ex_injective : injective (fun s => s).
+Proof. intros a b H. exact H. Qed.
+
+(* qop=auth with the identity as hash: H(a:R:p) : n:1:c:auth : H(GET:/) *)
+Example C20_ex_digest_qop_auth :
+  check_auth (fun _ => None) (fun b => Some b) (fun s => Some s)
+    (fun _ => Some [(s_username, [97]); (s_realm, [82]); (s_nonce, [110]); (s_uri, [47]);
+                    (s_qop, s_auth); (s_nc, [49]); (s_cnonce, [99]);
+                    (s_response, [97; 58; 82; 58; 112; 58; 110; 58; 49; 58; 99; 58] ++ s_auth ++ [58; 71; 69; 84; 58; 47])])
+    default_enc (Some (s_digest ++ [32; 120])) [71; 69; 84] [82] (table_of [([97], [112])])
+  = Authd [97].
+Proof. vm_compute. reflexivity. Qed.
+
+(* MD5-sess: A1 = H(a:R:p):n:c *)
+Example C20_ex_digest_md5_sess :
+  check_auth (fun _ => None) (fun b => Some b) (fun s => Some s)
+    (fun _ => Some [(s_username, [97]); (s_realm, [82]); (s_nonce, [110]); (s_uri, [47]);
+                    (s_qop, s_auth); (s_nc, [49]); (s_cnonce, [99]); (s_algorithm, s_MD5_sess);
+                    (s_response, [97; 58; 82; 58; 112; 58; 110; 58; 99; 58; 110; 58; 49; 58; 99; 58] ++ s_auth ++ [58; 71; 69; 84; 58; 47])])
+    default_enc (Some (s_digest ++ [32; 120])) [71; 69; 84] [82] (table_of [([97], [112])])
+  = Authd [97].
 Proof. vm_compute. reflexivity. Qed.
